@@ -2,6 +2,9 @@ package main
 
 import (
 	"fmt"
+	"os"
+	"path/filepath"
+	"strings"
 )
 
 func init() {
@@ -134,10 +137,62 @@ func checkC05(e *Env, r *Report) {
 		r.Fatal = err.Error()
 		return
 	}
+	errorPathProbe(e, r)
 	r.Coverage["configs"] = len(cfgs)
 	r.Coverage["episodes"] = len(eps)
 	r.Sample(map[string]any{"episode_files": eps[0].Files[:min(3, len(eps[0].Files))], "src": eps[0].Src, "none": eps[0].None})
 	if err := f.bindingDemo(); err != nil {
 		r.Fatal = err.Error()
 	}
+}
+
+// errorPathProbe: profiles on which a builder fails (a header that names its executable literally,
+// an @{exec_path} that does not resolve). The build may refuse them - then nothing is shipped and
+// nothing is judged - but whatever it does ship must be in the mode that was asked for.
+func errorPathProbe(e *Env, r *Report) {
+	mk := func(name, header string) string {
+		return "abi <abi/4.0>,\n\ninclude <tunables/global>\n\n" + header + " flags=(attach_disconnected) {\n  include <abstractions/base>\n\n  /etc/x r,\n\n  profile sub flags=(mediate_deleted) {\n    include <abstractions/base>\n\n    /etc/y r,\n\n    include if exists <local/" + name + "_sub>\n  }\n\n  include if exists <local/" + name + ">\n}\n"
+	}
+	probes := map[string]string{
+		"apparmor.d/groups/vgen/vgen-literal": mk("vgen-literal", "profile vgen-literal /usr/bin/vgen-literal"),
+		"apparmor.d/groups/vgen/vgen-unres":   strings.Replace(mk("vgen-unres", "@{exec_path} = @{vgen_undefined}/x\nprofile vgen-unres @{exec_path}"), "include <tunables/global>\n\n", "include <tunables/global>\n", 1),
+		"apparmor.d/groups/vgen/vgen-fine":    mk("vgen-fine", "@{exec_path} = @{bin}/vgen-fine\nprofile vgen-fine @{exec_path}"),
+	}
+	n := 0
+	for name, text := range probes {
+		src, err := e.MiniSrc("mini-errpath-"+filepath.Base(name), map[string]string{name: text, "apparmor.d/groups/vgen/vgen-fine": probes["apparmor.d/groups/vgen/vgen-fine"]})
+		if err != nil {
+			continue
+		}
+		for _, mode := range []string{"complain", "enforce"} {
+			b := e.RunPrebuild(Cfg{"arch", 4, "4.1", mode, false}, BuildOpts{Src: src, Tag: "errpath", NoCache: true})
+			if b.Err != nil {
+				b.Drop()
+				continue // refused: nothing shipped
+			}
+			for _, fn := range listFiles(filepath.Join(b.Out, "apparmor.d")) {
+				if !strings.HasPrefix(filepath.Base(fn), "vgen-") {
+					continue
+				}
+				t, _ := os.ReadFile(filepath.Join(b.Out, "apparmor.d", fn))
+				for _, it := range Scan(string(t)) {
+					if it.T != "hdr" {
+						continue
+					}
+					has := false
+					for _, fl := range it.Flags {
+						if fl == "complain" {
+							has = true
+						}
+					}
+					n++
+					if has != (mode == "complain") {
+						r.Violate(fmt.Sprintf("C05|errorpath|%s|%s", fn, mode), fmt.Sprintf("a profile the build shipped after a builder failed on it is not in %s mode: %s", mode, strings.TrimSpace(it.Raw)), map[string]any{"file": fn, "mode": mode, "header": it.Raw})
+					}
+				}
+			}
+			b.Drop()
+		}
+	}
+	r.Coverage["error_path_headers_judged"] = n
 }
